@@ -419,6 +419,21 @@ def wl_rewrites(ctx, rng, i):
         ctx.see("rewrite kinds", kind)
         ctx.nontrivial(P.jsonable(P.normalize(p)), P.jsonable(P.normalize(q)))
         w = {"rewrite": kind, "pattern1": ptxt, "pattern2": qtxt}
+        # the 2.0 route answers the same on the sub-language both grammars share
+        try:
+            from .c10 import shared_sublanguage
+            if shared_sublanguage(p) and shared_sublanguage(q) and validate_text(ptxt, "2.0") == [] and validate_text(qtxt, "2.0") == []:
+                from stix2.equivalence.pattern import equivalent_patterns
+                with warnings.catch_warnings():
+                    warnings.simplefilter("ignore")
+                    ans20 = bool(equivalent_patterns(ptxt, qtxt, stix_version="2.0"))
+                ctx.ev()
+                ctx.count("v20_rewrite_pairs")
+                if ans20 != ans:
+                    ctx.violation("version-dependent-answer", "equivalent_patterns answers %s under 2.1 and %s under 2.0 for a pair both grammars accept (made by %s)" % (ans, ans20, kind), w)
+        except Exception as e20:
+            if not (isinstance(e20, ValueError) and "satisfiable" in str(e20)):
+                ctx.violation("raised:%s@%s" % (type(e20).__name__, where_raised(e20)), "equivalent_patterns(stix_version='2.0') raised %s on a rewrite pair" % type(e20).__name__, dict(w, exception=repr(e20)[:300]))
         if back is not None and back != ans:
             ctx.violation("not-symmetric", "equivalent_patterns(p, q) = %s but (q, p) = %s" % (ans, back), w)
         if ans:
@@ -592,21 +607,25 @@ def relation_pool(rng):
     n24 = str(ipaddress.ip_network(h4 + "/24", strict=False))
     n8 = str(ipaddress.ip_network(h4 + "/8", strict=False))
     o4 = str(ipaddress.ip_address(int(ipaddress.ip_address(h4)) ^ 1))
-    fam4 = [h4, h4 + "/32", h4 + "/24", n24, h4 + "/8", n8, o4, o4 + "/24"]
+    pl4 = rng.choice([25, 26, 27, 28, 29, 30, 31, 1, 7, 9, 15, 17, 23])          # prefixes that end inside a byte, incl. the last one
+    npl4 = str(ipaddress.ip_network("%s/%d" % (h4, pl4), strict=False))
+    fam4 = [h4, h4 + "/32", h4 + "/24", n24, h4 + "/8", n8, o4, o4 + "/24", "%s/%d" % (h4, pl4), npl4, "%s/%d" % (o4, pl4)]
     hi = rng.getrandbits(48)
     h6 = str(ipaddress.ip_address((0x20010db8 << 96) | (hi << 32) | (rng.randrange(1, 65535) << 16) | rng.randrange(1, 65535)))
     n112 = str(ipaddress.ip_network(h6 + "/112", strict=False))
     n32 = str(ipaddress.ip_network(h6 + "/32", strict=False))
     o6 = str(ipaddress.ip_address(int(ipaddress.ip_address(h6)) ^ 3))
-    fam6 = [h6, h6 + "/128", h6 + "/112", n112, h6 + "/32", n32, o6, o6 + "/112", h6 + "/64"]
+    pl6 = rng.choice([121, 122, 124, 126, 127, 1, 7, 33, 63, 65, 113, 119])
+    npl6 = str(ipaddress.ip_network("%s/%d" % (h6, pl6), strict=False))
+    fam6 = [h6, h6 + "/128", h6 + "/112", n112, h6 + "/32", n32, o6, o6 + "/112", h6 + "/64", "%s/%d" % (h6, pl6), npl6, "%s/%d" % (o6, pl6)]
     key = rng.choice(["HKEY_LOCAL_MACHINE\\\\Software\\\\Foo", "HKEY_CURRENT_USER\\\\Bar"])
     famk = [key, key.lower(), key.upper(), key + "x"]
     pool = []
     which = rng.choice(["v4", "v6", "v6", "key", "mixed"])
     if which in ("v4", "mixed"):
-        pool += ["[ipv4-addr:value = '%s']" % x for x in rng.sample(fam4, 6)]
+        pool += ["[ipv4-addr:value = '%s']" % x for x in rng.sample(fam4, 7)]
     if which in ("v6", "mixed"):
-        pool += ["[ipv6-addr:value = '%s']" % x for x in rng.sample(fam6, 7)]
+        pool += ["[ipv6-addr:value = '%s']" % x for x in rng.sample(fam6, 8)]
     if which in ("key", "mixed"):
         pool += ["[windows-registry-key:key = '%s']" % x for x in famk]
     if which == "v6" and rng.random() < 0.5:
